@@ -67,6 +67,11 @@ pub fn candidates(prop: &str) -> Vec<Value> {
                 v.push(json!({"call": "multi", "group": g, "scheme": scheme_name(s), "n": n, "kind": kind}));
             }}}}
         }
+        "C10" => {
+            for g in ["G1", "G2"] { for s in schemes() { for kind in ["complete", "other_challenge", "other_msg", "other_key", "tamper_u", "tamper_v", "ts_no_timeout", "ts_within", "ts_elapsed", "ts_altered", "ts_future", "ts_max"] {
+                v.push(json!({"call": "pok", "group": g, "scheme": scheme_name(s), "kind": kind}));
+            }}}
+        }
         _ => {}
     }
     v
@@ -87,6 +92,7 @@ pub fn run(c: &Value) -> Option<String> {
         "pop" => by_group!(c, pop),
         "aggregate" => by_group!(c, aggregate),
         "multi" => by_group!(c, multi),
+        "pok" => by_group!(c, pok),
         _ => None,
     });
     match r { Ok(o) => o, Err(p) => Some(format!("panicked: {}", p)) }
@@ -299,5 +305,42 @@ fn multi<C: BlsSignatureImpl + PartialEq>(c: &Value, _keys: &[SecretKey<C>]) -> 
         "extra_signer" => { let mut p = pks.clone(); p.push(SecretKey::<C>::from_hash(b"extra").public_key()); if ms.verify(MultiPublicKey::<C>::from_public_keys(&p), &m).is_ok() { Some("accepted with a signer added".into()) } else { None } }
         "other_msg" => if ms.verify(mpk, b"other").is_ok() { Some("accepted for another message".into()) } else { None },
         _ => None,
+    }
+}
+
+fn pok<C: BlsSignatureImpl + PartialEq + Copy>(c: &Value, keys: &[SecretKey<C>]) -> Option<String> {
+    let s = scheme_of(&c["scheme"]);
+    let sk = &keys[3];
+    let pk = sk.public_key();
+    let m = b"proof of knowledge message".to_vec();
+    let sig = sk.sign(s, &m).ok()?;
+    let kind = c["kind"].as_str().unwrap();
+    if kind.starts_with("ts_") {
+        let p = match ProofOfKnowledgeTimestamp::<C>::generate(&m, sig) { Ok(p) => p, Err(e) => return Some(format!("generate failed: {}", e)) };
+        return match kind {
+            "ts_no_timeout" => if let Err(e) = p.verify(pk, &m, None) { Some(format!("timestamp proof rejected without timeout: {}", e)) } else { None },
+            "ts_within" => if let Err(e) = p.verify(pk, &m, Some(60_000)) { Some(format!("timestamp proof rejected within the timeout: {}", e)) } else { None },
+            "ts_elapsed" => { std::thread::sleep(std::time::Duration::from_millis(30)); if p.verify(pk, &m, Some(5)).is_ok() { Some("accepted after the timeout elapsed".into()) } else { None } }
+            "ts_altered" => { let mut q = p; q.timestamp -= 10; if q.verify(pk, &m, None).is_ok() { Some("altered timestamp accepted".into()) } else { None } }
+            "ts_future" => { let mut q = p; q.timestamp += 1_000_000; let _ = q.verify(pk, &m, Some(1000)); None }
+            _ => { let mut q = p; q.timestamp = u64::MAX; let _ = q.verify(pk, &m, Some(1000)); None }
+        };
+    }
+    let (comm, x) = match ProofCommitment::<C>::generate(&m, sig) { Ok(p) => p, Err(e) => return Some(format!("generate failed: {}", e)) };
+    let y = ProofCommitmentChallenge::<C>::from_hash(b"challenge");
+    let y2 = ProofCommitmentChallenge::<C>(y.0); let proof = match comm.finalize(x, y2, sig) { Ok(p) => p, Err(e) => return Some(format!("finalize failed: {}", e)) };
+    let g = <C as Pairing>::Signature::generator();
+    let tamper = |p: &ProofOfKnowledge<C>, which: u8| -> ProofOfKnowledge<C> {
+        let (u, v) = match p { ProofOfKnowledge::Basic { u, v } | ProofOfKnowledge::MessageAugmentation { u, v } | ProofOfKnowledge::ProofOfPossession { u, v } => (*u, *v) };
+        let (u, v) = if which == 0 { (u + g, v) } else { (u, v + g) };
+        match p { ProofOfKnowledge::Basic { .. } => ProofOfKnowledge::Basic { u, v }, ProofOfKnowledge::MessageAugmentation { .. } => ProofOfKnowledge::MessageAugmentation { u, v }, _ => ProofOfKnowledge::ProofOfPossession { u, v } }
+    };
+    match kind {
+        "complete" => if let Err(e) = proof.verify(pk, &m, y) { Some(format!("honest proof of knowledge rejected: {}", e)) } else { None },
+        "other_challenge" => if proof.verify(pk, &m, ProofCommitmentChallenge::<C>::from_hash(b"other")).is_ok() { Some("accepted for another challenge".into()) } else { None },
+        "other_msg" => if proof.verify(pk, b"other message", y).is_ok() { Some("accepted for another message".into()) } else { None },
+        "other_key" => if proof.verify(keys[4].public_key(), &m, y).is_ok() { Some("accepted for another key".into()) } else { None },
+        "tamper_u" => if tamper(&proof, 0).verify(pk, &m, y).is_ok() { Some("modified u accepted".into()) } else { None },
+        _ => if tamper(&proof, 1).verify(pk, &m, y).is_ok() { Some("modified v accepted".into()) } else { None },
     }
 }
